@@ -5,7 +5,7 @@
 # change, the demonstration fails with it and passes without it.
 # Writes /verif/seeded/<id>-<variant>/{patch.diff,demo_test.go,README.txt,confirm.log}
 src="$1"; id="$2"; v="$3"
-base=$(git -C /repo rev-list --max-parents=0 HEAD | tail -1)
+base=${BASE:-$(git -C /repo rev-list --max-parents=0 HEAD | tail -1)}
 out=/verif/seeded/$id-$v; mkdir -p "$out"
 cp "$src/patch.diff" "$src/demo_test.go" "$out"/; cp "$src/README.txt" "$out/README.txt" 2>/dev/null
 wt=$(mktemp -d /tmp/confwt.XXXXXX)
